@@ -375,8 +375,11 @@ def run(ctx) -> dict:
                'function-item code: ' + ', '.join(ITEM_CODE) + '. ' + r2.text)
     r52 = r05_2(ctx, counts)
     r52.title = 'PARAMETER-SCOPE (R16.4 = R05.2)'
+    from .c05_purity import r05_10
+    r9 = r05_10(ctx, counts)
+    r9.title = 'ARGUMENT-KEYED-MEMO (R16.9 = R05.10: a function item is called once per item)'
     results = [r16_1(ctx, counts), r2, r16_3(ctx, counts), r52, r16_5(ctx, counts),
-               r16_6(ctx, counts), r16_8(ctx, counts)]
+               r16_6(ctx, counts), r16_8(ctx, counts), r9]
     return {
         'results': results, 'counts': counts,
         'explanation':
